@@ -61,6 +61,9 @@ type Plan struct {
 	// AllowUncleanRestart lets a plan Start an election object again after a stop call that returned while
 	// the object's goroutines were still running (regression plans of the known WaitGroup-reuse finding).
 	AllowUncleanRestart bool `json:"allow_unclean_restart,omitempty"` // (default behaviour now; kept for old replay files)
+	// PlainDelete: the store offered to the elections has no revision-checked delete (a custom KeyValue
+	// implementation); the library's DeleteKey shutdown then looks and deletes in two steps.
+	PlainDelete bool `json:"plain_delete,omitempty"`
 	// CleanRestartsOnly: an object whose stop call failed or gave up waiting is restarted as a new election.
 	CleanRestartsOnly bool `json:"clean_restarts_only,omitempty"`
 }
